@@ -8,6 +8,7 @@ package client
 // came back and how long it took.  BatchRPC.tla decides.
 
 import (
+	"runtime"
 	"bufio"
 	"context"
 	"encoding/json"
@@ -43,6 +44,9 @@ func bScenario(log *bufio.Writer, lmu *sync.Mutex, seed int64, scn int) {
 	// a "stall" scenario: the server stops reading for a while, so the client's send loop blocks in the stream and the
 	// submission queue fills up behind it; callers with short time-outs must still come back in time
 	stall := scn%20 == 7
+	// a "stall and close" scenario: the send loop sleeps before every send, callers queue up behind it (most of them
+	// asynchronous, without a deadline) and the client is closed while they are queued
+	stallClose := scn%20 == 13
 	pDrop := []float64{0, 0, 0.02, 0.1}[rnd.Intn(4)]
 	pSkip := []float64{0, 0.02, 0.1}[rnd.Intn(3)]
 	maxDelay := []int{0, 0, 2, 10, 80}[rnd.Intn(5)] // 80 ms: responses arrive after the shortest time-outs have fired
@@ -125,6 +129,19 @@ func bScenario(log *bufio.Writer, lmu *sync.Mutex, seed int64, scn int) {
 	if rnd.Intn(4) == 0 {
 		closeAt = 5 + rnd.Intn(40) // the client is closed after this many milliseconds, with calls in flight
 	}
+	if stallClose {
+		healthy.Store(true)
+		if _, err := rpc.SendRequest(context.Background(), server.Addr(), tikvrpc.NewRequest(tikvrpc.CmdGet, &kvrpcpb.GetRequest{Key: []byte("warmup"), Version: 1}), 5*time.Second); err != nil {
+			panic("verif-harness: warm-up call failed: " + err.Error())
+		}
+		healthy.Store(false)
+		if err := failpoint.Enable("tikvclient/mockBatchClientSendDelay", "return(300)"); err != nil {
+			panic("verif-harness: " + err.Error())
+		}
+		defer failpoint.Disable("tikvclient/mockBatchClientSendDelay")
+		closeAt = 60 + rnd.Intn(80)
+		pSkip = 0
+	}
 	lmu.Lock()
 	b, _ := json.Marshal(bM{"ev": "reset", "scn": scn, "seed": seed, "pdrop": pDrop, "pskip": pSkip, "maxdelay_ms": maxDelay, "close_at_ms": closeAt})
 	log.Write(b)
@@ -135,6 +152,9 @@ func bScenario(log *bufio.Writer, lmu *sync.Mutex, seed int64, scn int) {
 	if stall {
 		workers = 400
 		closeAt = -1
+	}
+	if stallClose {
+		workers = 40
 	}
 	var wg sync.WaitGroup
 	var closed atomic.Bool
@@ -182,6 +202,12 @@ func bScenario(log *bufio.Writer, lmu *sync.Mutex, seed int64, scn int) {
 				var resp *tikvrpc.Response
 				var err error
 				useAsync := !stall && r.Intn(5) == 0
+				if stallClose {
+					if i > 0 {
+						break
+					}
+					useAsync = r.Intn(4) != 0
+				}
 				calls := 1
 				if useAsync {
 					// the asynchronous form: the callback must be invoked exactly once; its only deadline is the context's
@@ -194,6 +220,11 @@ func bScenario(log *bufio.Writer, lmu *sync.Mutex, seed int64, scn int) {
 						actx, acancel = context.WithCancel(context.Background())
 						cancelAfter = -1
 						timeout = 2500 // no deadline of its own: the harness waits this long (plus the slack) for the callback
+						if closeAt >= 0 {
+							// a request caught by Close may only be failed once the send loop has given up waiting for the closed
+							// connection to become ready (dial time-out, 5 s, for every connection of the pool it tries)
+							timeout = 27000
+						}
 					}
 					rl := async.NewRunLoop()
 					cb := async.NewCallback(rl, func(r *tikvrpc.Response, e error) { calls++; resp, err = r, e })
@@ -215,6 +246,10 @@ func bScenario(log *bufio.Writer, lmu *sync.Mutex, seed int64, scn int) {
 					"latency_ms": int(lat / time.Millisecond), "closed_before": wasClosed, "outcome": "err", "own": false, "err": "", "async": useAsync, "returns": calls, "healthy": false}
 				if calls == 0 {
 					ev["outcome"] = "never"
+					if os.Getenv("VERIF_DUMP") != "" {
+						buf := make([]byte, 1<<22)
+						os.WriteFile(os.Getenv("VERIF_DUMP"), buf[:runtime.Stack(buf, true)], 0o644)
+					}
 				}
 				switch {
 				case calls == 0:
@@ -299,7 +334,13 @@ func TestVerifBatchRPC(t *testing.T) {
 	log := bufio.NewWriterSize(f, 1<<20)
 	defer log.Flush()
 	var lmu sync.Mutex
+	only, hasOnly := os.LookupEnv("VERIF_ONLY") // debugging aid: run one scenario (repeatedly)
 	for s := 0; s < n; s++ {
+		if hasOnly {
+			o, _ := strconv.Atoi(only)
+			bScenario(log, &lmu, seed, o)
+			continue
+		}
 		bScenario(log, &lmu, seed, s)
 	}
 }
